@@ -229,7 +229,7 @@ func init() {
 						thoroughBound = 2
 					}
 					mc.Register("C01", "events+actions/"+sc.String(), "thorough", func(x *mc.Cell) { c01Scenario(x, sc, thoroughBound, true) })
-					if st == "default" && (pr == "accept" || pr == "limit") && d <= 3 {
+					if st == "default" && (pr == "accept" || pr == "limit" || (pr == "finalize-update" && d == 1)) && d <= 3 {
 						g := sc
 						g.GateBlocks = true
 						tier := "thorough"
